@@ -117,6 +117,9 @@ def all_namings(kinds):
         names = [k if not s else f"{k}.s{i}" for i, (k, s) in enumerate(zip(kinds, mask))]
         if len(set(names)) == len(names):
             out.append(names)
+    # the documentation allows any string after the first dot, dots included: one such naming per sequence
+    if kinds:
+        out.append([f"{k}.v{i}.2" for i, k in enumerate(kinds)])
     return out
 
 
@@ -225,8 +228,17 @@ def spaces(tier, seed):
     nrun = [{"kind": "hist", "seq": s, "names": nm, "words": ["R", "CR"]}
             for s in acc if 1 <= len(s) <= 4 and ("validation" in s or "multiscale" in s)
             for nm in all_namings(s) if nm != names_std(s)]
+    others = [["matching_cost", "disparity", "validation"],
+              ["matching_cost", "disparity", "multiscale"],
+              ["matching_cost", "cost_volume_confidence", "disparity", "filter"],
+              ["matching_cost", "disparity", "refinement", "filter"],
+              ["matching_cost", "disparity", "filter", "refinement"],
+              ["matching_cost", "aggregation", "optimization", "disparity"]]
+    mixed = [{"kind": "mixed", "P": s, "Q": q} for s in hseqs for q in others if list(s) != q]
     return [
         {"name": "language: all step sequences vs automaton", "level": 0, "cases": lang, "chunk": 2},
+        {"name": "mixed histories: pipeline P after another pipeline Q on the same machine", "level": 2,
+         "cases": mixed, "chunk": 4},
         {"name": "TLC terminal states replayed on the implementation", "level": 0, "cases": tlc, "chunk": 4},
         {"name": "suffix namings of accepted sequences", "level": 1, "cases": naming, "chunk": 8},
         {"name": "one unregistered method / invalid parameter", "level": 1, "cases": bad, "chunk": 8},
@@ -436,7 +448,11 @@ def run_logged(m, cfg):
     except Exception as e:  # pylint: disable=broad-except
         err = e
     log = stubs.disarm(m)
-    return [(e["step"], e["scale"], e["method"], e["roles"]) for e in log], err, out
+    # the first argument of confidence_prediction is the (still empty / None) disparity dataset: not a product role
+    norm = [(e["step"], e["scale"], e["method"],
+             tuple("*" if (e["method"] == "confidence_prediction" and i == 0) else r for i, r in enumerate(e["roles"])))
+            for e in log]
+    return norm, err, out
 
 
 def compare_log(names, pipe, nscales, log, err, viol, tag, case):
@@ -530,6 +546,8 @@ def run_case(case):
         return replay_tlc(case)
     if kind == "hist":
         return histories(case)
+    if kind == "mixed":
+        return mixed_histories(case)
     raise KeyError(kind)
 
 
@@ -677,3 +695,90 @@ def histories(case):
                                      "detail": f"{names}: {where}: {e2}", "case": hcase})
         sigs.append(f"H|{names}|{word}")
     return {"n": n, "sigs": sigs, "viol": viol[:10]}
+
+
+def mixed_histories(case):
+    """
+    one machine object first used for pipeline Q (check / run / check+run), then for pipeline P (check / run with a
+    configuration checked elsewhere / check+run): everything observed for P must equal what a fresh machine gives
+    """
+    viol = []
+    sigs = []
+    n = 0
+    pk, qk = case["P"], case["Q"]
+    pn, qn = names_std(pk), names_std(qk)
+    ppipe = build_pipeline(pk, pn, 2)
+    qpipe = build_pipeline(qk, qn, 2)
+    ref_m = fresh_machine()
+    ref_verdict, ref_cfg = do_check(ref_m, ppipe)
+    if ref_verdict != "accepted":
+        return {"n": 1, "sigs": [], "viol": [], "trivial": 1}
+    ref_log, ref_err, _ = run_logged(ref_m, copy.deepcopy(ref_cfg))
+    qm = fresh_machine()
+    qv, qcfg = do_check(qm, qpipe)
+    if qv != "accepted" or ref_err is not None:
+        return {"n": 1, "sigs": [], "viol": [], "trivial": 1}
+    qcls = "+".join(sorted({k for k in qk if k not in pk})) or "same-kinds"
+    for prefix in ("C", "R", "CR"):
+        for suffix in ("C", "R", "CR"):
+            m = fresh_machine()
+            hcase = {"kind": "mixed", "P": pk, "Q": qk}
+            where = f"history {prefix.lower()}(Q){suffix}(P) with Q={qn} P={pn}"
+            ok = True
+            for op in prefix:
+                n += 1
+                if op == "C":
+                    v, _ = do_check(m, qpipe)
+                    ok = ok and v == "accepted"
+                else:
+                    _, e, _ = run_logged(m, copy.deepcopy(qcfg))
+                    ok = ok and e is None
+            if not ok:
+                continue  # Q itself misbehaving is judged by the single-pipeline spaces
+            cfg = None
+            for op in suffix:
+                n += 1
+                if op == "C":
+                    v, res = do_check(m, ppipe)
+                    if v != "accepted":
+                        viol.append({"clause": "check-after-other-pipeline", "key": f"C01/mixed/check-refused/after-{qcls}",
+                                     "detail": f"{where}: check of P gave {v} {res!r}", "case": hcase})
+                        break
+                    if list(res["pipeline"]) != list(ref_cfg["pipeline"]):
+                        extra = [x for x in res["pipeline"] if x not in ref_cfg["pipeline"]]
+                        cls = "extra-steps" if extra else "reordered"
+                        viol.append({"clause": "checked-pipeline-is-the-configured-one",
+                                     "key": f"C01/mixed/checked-pipeline-{cls}/after-{qcls}",
+                                     "detail": f"{where}: checked pipeline has steps {list(res['pipeline'])}, the "
+                                               f"configured pipeline is {list(ref_cfg['pipeline'])}", "case": hcase})
+                        break
+                    if json.dumps(res, sort_keys=True, default=str) != json.dumps(ref_cfg, sort_keys=True, default=str):
+                        viol.append({"clause": "checked-pipeline-is-the-configured-one",
+                                     "key": f"C01/mixed/checked-parameters-differ/after-{qcls}",
+                                     "detail": f"{where}: completed configuration differs from a fresh machine's",
+                                     "case": hcase})
+                        break
+                    cfg = res
+                else:
+                    log, err, _ = run_logged(m, copy.deepcopy(cfg if cfg is not None else ref_cfg))
+                    if err is not None:
+                        viol.append({"clause": "run-after-other-pipeline",
+                                     "key": f"C01/mixed/run-error/after-{qcls}/{type(err).__name__}",
+                                     "detail": f"{where}: run of P raised {err!r}", "case": hcase})
+                        break
+                    if log != ref_log:
+                        k = 0
+                        while k < min(len(log), len(ref_log)) and log[k] == ref_log[k]:
+                            k += 1
+                        viol.append({"clause": "run-after-other-pipeline",
+                                     "key": f"C01/mixed/run-log-differs/after-{qcls}",
+                                     "detail": f"{where}: execution log of P differs from a fresh machine's at entry {k}: "
+                                               f"fresh {ref_log[k:k + 1]}, here {log[k:k + 1]} ({len(ref_log)} vs {len(log)} "
+                                               f"calls)", "case": hcase})
+                        break
+                    e2 = machine_clean(m)
+                    if e2:
+                        viol.append({"clause": "idle-after-run", "key": "C01/idle-after-run/mixed",
+                                     "detail": f"{where}: {e2}", "case": hcase})
+            sigs.append(f"X|{pn}|{qn}|{prefix}|{suffix}")
+    return {"n": n, "sigs": sigs, "viol": viol[:8]}
